@@ -3,7 +3,6 @@ package c16
 import (
 	"bytes"
 	"context"
-	"encoding/json"
 	"fmt"
 	"go/ast"
 	"go/parser"
@@ -12,15 +11,12 @@ import (
 	"os/exec"
 	"path/filepath"
 	"regexp"
-	"sort"
 	"strings"
 	"sync"
-	"testing"
 	"time"
 
 	"golang.org/x/tools/go/analysis"
 	"honnef.co/go/tools/lintcmd/runner"
-	"pgregory.net/rapid"
 	"verif/harness/internal/ev"
 	"verif/harness/internal/rn"
 )
@@ -272,7 +268,7 @@ func evalBehaviour(files map[string]string, meta map[string]*instMeta) ([]findin
 
 	// 2. analyse
 	var diags []runner.Diagnostic
-	err = rn.Run(rn.Options{Dir: dir}, simpleAndQuickfix(), []string{"./orig"}, func(res []runner.Result) error {
+	err = rn.Run(rn.Options{Dir: dir, CacheDir: cacheDir()}, simpleAndQuickfix(), []string{"./orig"}, func(res []runner.Result) error {
 		for _, r := range res {
 			if !r.Initial {
 				continue
@@ -295,7 +291,7 @@ func evalBehaviour(files map[string]string, meta map[string]*instMeta) ([]findin
 	var out []finding
 	addFinding := func(check, kind, file, msg string) {
 		fs := map[string]string{"prelude.go": files["prelude.go"], file: string(ps.files[filepath.Join(odir, file)])}
-		out = append(out, finding{check: check, kind: kind, sig: knownSig(check, kind), msg: msg, files: fs})
+		out = append(out, finding{check: check, kind: kind, sig: knownSig(check, kind, msg), msg: msg, files: fs})
 	}
 
 	// 3. apply every fix separately
@@ -463,66 +459,3 @@ func evalBehaviour(files map[string]string, meta map[string]*instMeta) ([]findin
 	}
 	return out, ""
 }
-
-// TestShapes is the behavioural clause.
-func TestShapes(t *testing.T) {
-	ev.Rule(rule)
-	defer flushStats()
-	emitters := fixEmitters("simple", "quickfix")
-	have := map[string]bool{}
-	for _, s := range shapes {
-		have[s.check] = true
-	}
-	var noShape []string
-	for _, c := range emitters {
-		if !have[c] {
-			noShape = append(noShape, c)
-		}
-	}
-	ev.Extra("fix_emitting_simple_quickfix_checks", strings.Join(emitters, " "))
-	ev.Extra("checks_without_shape_position_apply_clause_only", strings.Join(noShape, " "))
-	ev.Extra("checks_with_shape", len(have))
-	var exempt []string
-	for c, why := range exemptChecks {
-		exempt = append(exempt, c+": "+why)
-	}
-	sort.Strings(exempt)
-	ev.Assume("behavioural equality is not asserted (only counted) for checks whose fix deliberately changes behaviour: " + strings.Join(exempt, "; "))
-	ev.Assume("time-dependent rewrites (S1012, S1024, S1037) are compared through time-independent observations (sign of a duration far from zero, trace, completion)")
-	perCase := ev.EnvInt("C16_INSTANCES", 20, 24)
-	ev.Check(t, "TestShapes", func(rt *rapid.T) {
-		files := map[string]string{"prelude.go": prelude}
-		meta := map[string]*instMeta{}
-		for i := 0; i < perCase; i++ {
-			sh := &shapes[rapid.IntRange(0, len(shapes)-1).Draw(rt, "shape")]
-			in := buildInstance(rt, i, sh)
-			name := fmt.Sprintf("f%d.go", i)
-			files[name] = in.Src
-			meta[name] = &instMeta{check: in.Check, shape: in.Shape, holes: in.nontrivialHoles(), alias: in.Alias}
-		}
-		rp := &Replay{Kind: "behaviour", Files: files}
-		ev.Begin("TestShapes", "json", rp.bytes())
-		fs, infra := evalBehaviour(files, meta)
-		if infra != "" {
-			ev.Count("infra_skipped", 1)
-			ev.Extra("last_infra", infra)
-			rt.Skip(infra)
-		}
-		msgs, first := reportFindings(fs)
-		if first != nil {
-			one := &Replay{Kind: "behaviour", Check: first.check, Files: first.files, Note: first.sig}
-			ev.Begin("TestShapes", "json", one.bytes())
-			ev.Failf(rt, "TestShapes", "%s", strings.Join(msgs, "\n\n"))
-		}
-		if ev.WantSample() {
-			for n, m := range meta {
-				if m.holes {
-					ev.Sample(map[string]any{"kind": "shape instance", "check": m.check, "shape": m.shape, "source": files[n]})
-					break
-				}
-			}
-		}
-	})
-}
-
-var _ = json.Marshal
